@@ -2169,13 +2169,12 @@ def variables(
     filters = (*filters, ...)
 
   variables_iterable = _variables_generator(node)
-  flat_states = variablelib.split_flat_state(
-    variables_iterable, (*filters, ...)
-  )
+  # (`filters` already ends with the catch-all `...`)
+  flat_states = variablelib.split_flat_state(variables_iterable, filters)
   states = tuple(statelib.from_flat_state(flat_state) for flat_state in flat_states)
   if num_filters < 2:
     return states[0]
-  return states
+  return states[:num_filters]
 
 
 @tp.overload
